@@ -9,7 +9,7 @@ use serde_json::{json, Value};
 use std::io::{BufRead, Read};
 use vph::refdec;
 
-pub const RULE: &str = "frame parameter menu of 12 (rate: fixed code / kHz / Hz / daHz classes; channels 1,2,3,8; depth 8,12,16,20,24,32; length 1,16,17,40): (A) ALL sequences of 1..3 (thorough 1..4) frames written by FlacStreamWriter — each frame must decode from its own bytes alone in the independent decoder's subset mode and FlacStreamReader must return every frame's samples and parameters exactly, for the unsegmented source, every single cut point and 1-byte buffers; all non-subset rate/depth classes must be refused at write; (C) grammar-built raw frame streams covering every block-size code (incl. both explicit forms), every sample-rate code that is carried in the header, every depth code and every channel-assignment code, fixed and variable blocking, read whole / through 7-byte buffers / with one cut: every frame returned exactly; (D) the writer's own code tables: frames of every common block length (192, 576·2^k, 256·2^k) and 255 / 257 / 65535 / 1 / 15 samples, and 65536 / 65537 / 69632 / 131073 (more than a header can describe) × channels 1..8 × a depth/rate menu × 5 option sets (exhaustive / fast correlation, no mid-side, no LPC, LPC 32) on channel-heterogeneous signals, each followed by a frame with other parameters: decodable from the own header with exact parameters and samples, and returned exactly by FlacStreamReader; (B) 6 three-frame sequences × ALL placements of ≤3 garbage strings from {00, FF, FF FF, FF F8, FF F9, FF F8 + CRC-8-valid fake header, the first 5 / 9 bytes of a real frame, 37 sync-free bytes} in the 4 gaps × every single cut point of the source (thorough: + every pair of cuts for ≤1 garbage string) and 1-byte buffers: frames returned Ok must be a subsequence of the written frames in order with exact samples/parameters; when no inserted string contains FF F8/FF F9 every frame must be returned and no error may precede the final end of data";
+pub const RULE: &str = "frame parameter menu of 12 (rate: fixed code / kHz / Hz / daHz classes; channels 1,2,3,8; depth 8,12,16,20,24,32; length 1,16,17,40): (A) ALL sequences of 1..3 (thorough 1..4) frames written by FlacStreamWriter — each frame must decode from its own bytes alone in the independent decoder's subset mode and FlacStreamReader must return every frame's samples and parameters exactly, for the unsegmented source, every single cut point and 1-byte buffers; all non-subset rate/depth classes must be refused at write; (C) grammar-built raw frame streams covering every block-size code (incl. both explicit forms), every sample-rate code that is carried in the header, every depth code and every channel-assignment code, fixed and variable blocking, read whole / through 7-byte buffers / with one cut: every frame returned exactly; (D) the writer's own code tables: frames of every common block length (192, 576·2^k, 256·2^k) and 255 / 257 / 65535 / 1 / 15 samples, and 65536 / 65537 / 69632 / 131073 (more than a header can describe) × channels 1..8 × a depth/rate menu × 5 option sets (exhaustive / fast correlation, no mid-side, no LPC, LPC 32) on channel-heterogeneous signals, each followed by a frame with other parameters: decodable from the own header with exact parameters and samples, and returned exactly by FlacStreamReader; (E) write_cdda ≡ write(44100, 2, 16, ·): 9 sample counts (0, odd, 1 .. 131072) alone and all 49 two-call histories over 7 of them, same bytes or same error class; (B) 6 three-frame sequences × ALL placements of ≤3 garbage strings from {00, FF, FF FF, FF F8, FF F9, FF F8 + CRC-8-valid fake header, the first 5 / 9 bytes of a real frame, 37 sync-free bytes} in the 4 gaps × every single cut point of the source (thorough: + every pair of cuts for ≤1 garbage string) and 1-byte buffers: frames returned Ok must be a subsequence of the written frames in order with exact samples/parameters; when no inserted string contains FF F8/FF F9 every frame must be returned and no error may precede the final end of data";
 pub const ASSUMPTIONS: &[&str] = &["garbage is drawn from a 9-string alphabet; frames from a 12-entry parameter menu with position-identifying PCM"];
 pub fn bounds(quick: bool) -> Value {
     json!({"clean_sequences": if quick { "all of length 1..3 over 12 frame kinds" } else { "all of length 1..4 over 12 frame kinds" }, "garbage_strings_per_stream": 3, "cuts": if quick { "every single cut (≤2 garbage strings), every pair of cuts (≤1 garbage string, first sequence), 1-byte buffers" } else { "every single cut, every pair of cuts (≤2 garbage strings), 1-byte buffers" }})
@@ -263,7 +263,27 @@ fn table_own_header(bytes: &[u8], want: &[Got]) -> Result<(), String> {
     Ok(())
 }
 
+
+/// (E) `write_cdda(s)` must be `write(44100, 2, 16, s)`: same bytes or the same error class, for every length in the menu
+/// and in every position of a 2-call history (the second call sees the frame counter the first left behind).
+fn cdda_pair(lens: &[usize], cdda: bool) -> Result<Vec<u8>, String> {
+    guarded(|| -> Result<Vec<u8>, String> {
+        let mut out = Vec::new();
+        let mut w = FlacStreamWriter::new(&mut out, Options::default());
+        for (i, &n) in lens.iter().enumerate() {
+            let pcm = ident_pcm(2, 16, n / 2 + 1);
+            let pcm: Vec<i32> = pcm.iter().map(|s| s.wrapping_add(i as i32 * 37).clamp(-32768, 32767)).take(n).collect();
+            if cdda { w.write_cdda(&pcm) } else { w.write(44100, 2, 16, &pcm) }.map_err(|e| format!("err:{e:?}"))?;
+        }
+        drop(w);
+        Ok(out)
+    })
+    .map_err(|p| format!("panic:{p}"))?
+}
+const CDDA_LENS: [usize; 9] = [0, 1, 2, 3, 32, 1176, 8192, 131070, 131072];
+
 pub fn run(ctx: &Ctx, acc: &mut Acc) {
+    cdda_stage(ctx, acc);
     // ---- (A) all clean sequences
     let n = MENU.len();
     let mut seqs: Vec<Vec<usize>> = Vec::new();
@@ -438,6 +458,34 @@ pub fn run(ctx: &Ctx, acc: &mut Acc) {
     acc.sample(json!({"frames":[0,1,2],"garbage":[[1,"FF"],[2,"fake-header"]],"cuts":[57]}));
 }
 
+fn cdda_stage(ctx: &Ctx, acc: &mut Acc) {
+    let mut hist: Vec<Vec<usize>> = CDDA_LENS.iter().map(|&a| vec![a]).collect();
+    for &a in &CDDA_LENS[..7] {
+        for &b in &CDDA_LENS[..7] {
+            hist.push(vec![a, b]);
+        }
+    }
+    for h in hist {
+        if !ctx.mine() {
+            continue;
+        }
+        acc.states += 1;
+        acc.executions += 2;
+        acc.transitions += 2 * h.len() as u64;
+        let (a, b) = (cdda_pair(&h, true), cdda_pair(&h, false));
+        let same = match (&a, &b) {
+            (Ok(x), Ok(y)) => x == y,
+            (Err(x), Err(y)) => crate::codec::err_class(x) == crate::codec::err_class(y),
+            _ => false,
+        };
+        acc.outcome(format!("cdda:{}:{}", match &a { Ok(_) => "written".to_string(), Err(e) => crate::codec::err_class(e) }, if same { "same" } else { "DIFF" }));
+        if !same {
+            let d = |r: &Result<Vec<u8>, String>| match r { Ok(v) => format!("{} bytes", v.len()), Err(e) => e.chars().take(120).collect() };
+            acc.violation("C16|write_cdda|differs-from-write".to_string(), format!("write_cdda with sample counts {h:?}: {} ; write(44100, 2, 16, ..): {}", d(&a), d(&b)), json!({"kind":"raw-cdda","lens":h}));
+        }
+    }
+}
+
 pub fn replay(v: &Value) -> Option<(bool, String)> {
     match v["kind"].as_str()? {
         "raw-stream" => {
@@ -469,6 +517,16 @@ pub fn replay(v: &Value) -> Option<(bool, String)> {
                 Ok((d, w)) => table_own_header(&d, &w).map(|_| format!("{} bytes", d.len())),
             };
             Some((r.is_err(), format!("{r:?}")))
+        }
+        "raw-cdda" => {
+            let h: Vec<usize> = v["lens"].as_array()?.iter().map(|x| x.as_u64().unwrap_or(0) as usize).collect();
+            let (a, b) = (cdda_pair(&h, true), cdda_pair(&h, false));
+            let same = match (&a, &b) {
+                (Ok(x), Ok(y)) => x == y,
+                (Err(x), Err(y)) => crate::codec::err_class(x) == crate::codec::err_class(y),
+                _ => false,
+            };
+            Some((!same, format!("write_cdda: {:?} ; write: {:?}", a.map(|x| x.len()), b.map(|x| x.len()))))
         }
         "raw-write" => {
             let seq: Vec<usize> = v["frames"].as_array()?.iter().map(|x| x.as_u64().unwrap_or(0) as usize).collect();
